@@ -595,6 +595,9 @@ def _route_api(stmts, raw, order, clone_from=None):
             outcomes.append(Sym('RelateException'))
         except _x.UnknownLinkException:
             outcomes.append(Sym('UnknownLinkException'))
+        except RecursionError:
+            # reading a referential attribute whose chain of identifying attributes is cyclic (A.x -> B.y -> A.x)
+            outcomes.append(Sym('RecursionError'))
     return m, outcomes
 
 
@@ -711,9 +714,9 @@ def run_impl(case):
                 inst_of[i] = m1.find_metaclass(kind).storage[k]
         m3, outcomes3 = _route_api(stmts, raw, order, clone_from=inst_of)
         d3 = _dump(m3, None)
-        if guard is None:
+        if guard is None and Sym('RecursionError') not in outcomes3:
             _check_api('clone', stmts, raw, order, d3, outcomes3, expected, fail)
-        api_obs = [order, [outcomes, d2[2], d2[3]], [outcomes3, d3[2], d3[3]]]
+        api_obs = [[outcomes, d2[2], d2[3]], [outcomes3, d3[2], d3[3]]]
     nontrivial = any(0 < len(p) < _n_candidates(stmts, ai) for ai, p in expected.items())
     return {'obs': [obs, api_obs if _api_modelled(case) and api_obs is not None else Sym('none')],
             'd_fail': fails, 'nontrivial': nontrivial, 'key': G.text_of(stmts), 'stats': stats}
@@ -726,7 +729,18 @@ def _n_candidates(stmts, ai):
 
 
 def _api_modelled(case):
-    return False
+    """the API / clone routes are compared with the Lean model on chain-free schemas (the model does not
+    read identifying attributes that are themselves referential)"""
+    stmts = case['stmts']
+    return bool(case.get('api')) and case['fam'] != 'error' and not has_chain(stmts) and \
+        all(G.class_of(stmts, s['kind']) for s in stmts if s['t'] == 'insert')
+
+
+def _api_order(stmts):
+    ins_ids = [i for i, s in enumerate(stmts) if s['t'] == 'insert']
+    raw = dict((i, G.raw_row(stmts, stmts[i])) for i in ins_ids)
+    order = _creation_order(stmts, _expected_links(stmts, raw))
+    return (order if order is not None else ins_ids), raw
 
 
 # ----------------------------------------------------------------------------- model side
@@ -734,15 +748,26 @@ def _api_modelled(case):
 def model_line(case):
     stmts = case['stmts']
     vs = [[G.enc_stmt(stmts[i]) for i in v['order']] for v in case['variants'] if v['route'] != 'bp-dirwide']
-    return dumps([Sym('c03-load')] + vs)
+    api = Sym('none')
+    if _api_modelled(case):
+        order, raw = _api_order(stmts)
+        pos = {}
+        for kind, lst in _ids_by_kind(stmts, range(len(stmts))).items():
+            for k, i in enumerate(lst):
+                pos[i] = k
+        api = []
+        for i in order:
+            c = G.class_of(stmts, stmts[i]['kind'])
+            api.append([stmts[i]['kind'], pos[i]] + [G.enc_val(raw[i].get(n)) for n, _ in c['attrs']])
+    return dumps([Sym('c03-case'), vs, api])
 
 
 def model_obs(case, ans):
-    it = iter(ans)
+    it = iter(ans[0])
     out = []
     for v in case['variants']:
         out.append(Sym('same') if v['route'] == 'bp-dirwide' else next(it))
-    return [out, Sym('none')]
+    return [out, ans[1]]
 
 
 def shrink_candidates(case):
